@@ -68,12 +68,12 @@ for j in range(JOBS):
         subprocess.run([vf, 'corpus', kind, corpus, '200', str(SEED + j + 1), str(min(maxlen, 2500))], check=False)
     s = (SEED * 1000 + j + 1) & 0x7fffffff or 1
     e = dict(env, VF_PROP=ID, VF_PART=part or '')
-    cmd = [os.path.join(bindir, target), f'-runs={RUNS}', f'-seed={s}', '-len_control=0', f'-max_len={maxlen}', '-timeout=25',
+    cmd = [os.path.join(bindir, target), f'-runs={RUNS}', f'-seed={s}', '-len_control=0', f'-max_len={maxlen}', '-timeout=60', '-report_slow_units=600',
            '-rss_limit_mb=6144', f'-max_total_time={MAXT}', '-print_final_stats=1', f'-artifact_prefix={art}/', corpus]
     log = open(os.path.join(d, 'log'), 'w')
     procs.append((j, target, part, seeded, s, d, subprocess.Popen(cmd, env=e, stdout=log, stderr=subprocess.STDOUT), log))
 
-campaigns = []; total = 0; artifacts = []
+campaigns = []; total = 0; artifacts = []; ignored = []
 for (j, target, part, seeded, s, d, p, log) in procs:
     rc = p.wait(); log.close()
     txt = open(os.path.join(d, 'log'), errors='replace').read()
@@ -85,10 +85,17 @@ for (j, target, part, seeded, s, d, p, log) in procs:
     campaigns.append({"target": target, "part": part, "corpus": "seeded (200 generated inputs)" if seeded else "empty", "seed": s, "runs": runs,
                       "coverage_edges": c, "features": ft, "corpus_size": corp, "exit": rc})
     for f in sorted(os.listdir(os.path.join(d, 'artifacts'))):
+        # slow-unit-* files are informational (a unit was slow on a loaded machine), oom-* / timeout-* are resource
+        # events: none of them is an oracle failure. Timeouts are candidates only for C01, whose statement includes termination.
+        kind = f.split('-')[0]
+        if kind in ('slow', 'oom') or (kind == 'timeout' and ID != 'C01'):
+            ignored.append(f)
+            continue
         artifacts.append((target, part, os.path.join(d, 'artifacts', f), txt[-4000:]))
 
 stats = {"engine": "libFuzzer via cargo-fuzz (nightly, AddressSanitizer, debug assertions on), oracle of this property compiled into the target",
-         "runs": total, "processes": len(procs), "campaigns": campaigns, "artifacts": len(artifacts)}
+         "runs": total, "processes": len(procs), "campaigns": campaigns, "artifacts": len(artifacts),
+         "resource_events_ignored": ignored}
 out(stats)
 
 if not artifacts:
